@@ -5,6 +5,7 @@ import (
 	"go/ast"
 	"go/token"
 	"go/types"
+	"golang.org/x/tools/go/packages"
 	"strings"
 
 	"j5verif/checker/core"
@@ -85,31 +86,35 @@ func fieldAttributes(r *core.Run) {
 	if !ok || len(last.Results) != 2 || !core.IsNilIdent(info, last.Results[1]) {
 		o.Fail("the function does not end with `return <desc>, nil`")
 	} else {
+		// values are compared with the locals printed as their types: what they are called does not matter
 		got := map[string]string{}
+		nameVar := ""
 		for _, st := range top {
 			if as, ok := st.(*ast.AssignStmt); ok && len(as.Lhs) == 1 {
 				if s, ok := as.Lhs[0].(*ast.SelectorExpr); ok && core.ExprStr(s.X) == core.ExprStr(last.Results[0]) {
-					got[s.Sel.Name] = core.ExprStr(ptrArg(as.Rhs[0]))
+					got[s.Sel.Name] = core.NormExpr(info, ptrArg(as.Rhs[0]))
+					if s.Sel.Name == "Name" {
+						nameVar = core.ExprStr(ptrArg(as.Rhs[0]))
+					}
 				}
 			}
 		}
-		nameVar := got["Name"]
-		nameSrc := ""
+		nameSrc := got["Name"]
 		ast.Inspect(fd.Body, func(n ast.Node) bool {
 			if as, ok := n.(*ast.AssignStmt); ok && len(as.Lhs) == 1 && core.ExprStr(as.Lhs[0]) == nameVar {
-				nameSrc = core.ExprStr(as.Rhs[0])
+				nameSrc = core.NormExpr(info, as.Rhs[0])
 			}
 			return true
 		})
 		switch {
-		case nameSrc != "strcase.ToSnake(node.Schema.Name)":
+		case nameSrc != "strcase.ToSnake(‹*ObjectProperty›.Name)":
 			o.Fail("Name is %s = %s, expected the snake_case of the declared name", nameVar, nameSrc)
-		case got["JsonName"] != "node.Schema.Name":
+		case got["JsonName"] != "‹*ObjectProperty›.Name":
 			o.Fail("JsonName is %q, expected the declared name", got["JsonName"])
-		case got["Number"] != "node.Number":
+		case got["Number"] != "‹*PropertyNode›.Number":
 			o.Fail("Number is %q, expected the positional number", got["Number"])
 		default:
-			o.Auto("Name ← %s, JsonName ← node.Schema.Name, Number ← node.Number, all on the unconditional tail", nameSrc)
+			o.Auto("Name ← snake(declared name), JsonName ← declared name, Number ← positional number, all on the unconditional tail")
 		}
 	}
 	// Proto3Optional only under ExplicitlyOptional
@@ -126,7 +131,16 @@ func fieldAttributes(r *core.Run) {
 		case "Proto3Optional":
 			o := r.Add("R-FLOW/attr", "j5convert.buildProperty | Proto3Optional", as.Pos(), "proto3 optional marker")
 			f := rules.FactsAt(info, fd.Body, as)
-			if f.True["node.Schema.ExplicitlyOptional"] && f.False["required"] {
+			optional, notRequired := false, false
+			for k := range f.True {
+				if strings.HasSuffix(k, ".ExplicitlyOptional") {
+					optional = true
+				}
+			}
+			if v := requiredFlag(info, pk, fd); v != nil && f.False[v.Name()] {
+				notRequired = true
+			}
+			if optional && notRequired {
 				o.Auto("set only when the property is explicitly optional and not required")
 			} else {
 				o.Fail("Proto3Optional is not guarded by ExplicitlyOptional && !required")
@@ -398,4 +412,23 @@ func importNames(r *core.Run) {
 	})
 	r.Floor("R-CONST/importnames", 3, "stores into the import table")
 	_ = n
+}
+
+// requiredFlag: the local of buildProperty that starts as the declared
+// Required flag (`x := <property>.Required`), whatever it is called.
+func requiredFlag(info *types.Info, pk *packages.Package, fd *ast.FuncDecl) types.Object {
+	var out types.Object
+	ast.Inspect(core.TreeBody(pk, fd, "buildField"), func(n ast.Node) bool {
+		as, ok := n.(*ast.AssignStmt)
+		if !ok || as.Tok != token.DEFINE || len(as.Lhs) != 1 || len(as.Rhs) != 1 {
+			return true
+		}
+		if core.NormExpr(info, as.Rhs[0]) == "‹*ObjectProperty›.Required" {
+			if id, ok := as.Lhs[0].(*ast.Ident); ok {
+				out = info.Defs[id]
+			}
+		}
+		return true
+	})
+	return out
 }
